@@ -425,6 +425,16 @@ func formatGB(buf *strings.Builder, gb float32) {
 		}
 		gb = -gb
 	}
+	if gb >= 1<<40 {
+		// Too large to count in megabytes without overflow, and far too
+		// large for a fraction of a gigabyte to matter.
+		var b [32]byte
+		if _, err := buf.Write(strconv.AppendFloat(b[:0],
+			float64(gb), 'g', -1, 32)); err != nil {
+			panic(err)
+		}
+		return
+	}
 	mb := int64(gb * 1024)
 	var b [20]byte
 	if _, err := buf.Write(strconv.AppendInt(b[:0], mb/1024, 10)); err != nil {
